@@ -123,12 +123,23 @@ def class_value(cls, g, F, T):
     raise ValueError(cls)
 
 
+GE_CLASSES = ("at", "above_in", "above", "pinf")
+
+
+class OffGrid(AssertionError):
+    pass
+
+
+class PoisonUsed(AssertionError):
+    pass
+
+
 class Poison:
     """Returned as the volume metric at temperatures where the specification says the code does not look
     at it: any use raises."""
 
     def _boom(self, *a, **k):
-        raise AssertionError("code inspected the volume metric at a temperature where the specification does not")
+        raise PoisonUsed("code inspected the volume metric at a temperature where the specification does not")
 
     __lt__ = __le__ = __gt__ = __ge__ = __eq__ = __ne__ = __float__ = __sub__ = __rsub__ = __abs__ = _boom
     __array__ = __bool__ = __add__ = __radd__ = __mul__ = __rmul__ = __neg__ = _boom
@@ -173,25 +184,56 @@ class StubBinding:
         # ESS class at temperatures where the specification never branches on the ESS
         return ("above", "below")[((g * 2654435761 + self.seed) >> 5) & 1]
 
-    def observe(self, st, F):
+    def oracle(self, st, F, extended):
+        """(ess class, vv class) of any temperature g (in grid units, possibly fractional).  On the grid points the specification's
+        behaviour fixed (its memos) the classes are those; elsewhere: `extended` = FALSE -> an arbitrary (seeded) class, as for the
+        exact replay; TRUE -> the monotone extension (ESS >= target strictly below the first memo point below target, volume metric
+        as at the nearest memo point to the left), which gives every temperature a meaning for ANY search strategy."""
+        essM = {g: c for g, c in st["essM"]}
+        vvM = {g: c for g, c in st["vvM"]}
+        below = sorted(g for g, c in essM.items() if c not in GE_CLASSES and c != "nan")
+        first_below = below[0] if below else None
+
+        def classes(g):
+            gi = int(math.floor(g))
+            on_grid = gi == g
+            if on_grid and gi in essM:
+                ec = essM[gi]
+            elif not extended:
+                ec = self.default_ess_class(gi)
+            else:
+                ec = "above" if (first_below is None or g < first_below) else "below"
+            if on_grid and gi in vvM:
+                vc = vvM[gi]
+            elif not extended:
+                vc = None
+            else:
+                left = [h for h in vvM if h <= g]
+                vc = vvM[max(left)] if left else "below"
+            return ec, vc
+        return classes, first_below
+
+    def observe(self, st, F, extended=False):
         """Run the real code for the (oracle, beta_prev, mode) of behaviour `st`; return the observation."""
         np = self.np
         one = 2 ** F
         mode = st["mode"]
-        essM = {g: c for g, c in st["essM"]}
-        vvM = {g: c for g, c in st["vvM"]}
+        classes, _ = self.oracle(st, F, extended)
         qlog = []
         self.zlog = []
 
         def stub_metric(beta):
             g = beta * one
-            gi = int(g)
-            if gi != g or not (0 <= gi <= one):
-                raise AssertionError(f"temperature {beta!r} queried off the dyadic grid 2^-{F}")
+            if not (0 <= g <= one):
+                raise AssertionError(f"temperature {beta!r} queried outside [0, 1]")
+            gi = int(g) if int(g) == g else float(g)
+            if not extended and gi != int(g):
+                raise OffGrid(f"temperature {beta!r} queried off the dyadic grid 2^-{F}")
             qlog.append(gi)
-            ess = class_value(essM.get(gi) or self.default_ess_class(gi), gi, F, T_ESS)
+            ec, vc = classes(g)
+            ess = class_value(ec, g, F, T_ESS)
             if mode == "vv":
-                metric = class_value(vvM[gi], gi, F, T_VV) if gi in vvM else POISON
+                metric = class_value(vc, g, F, T_VV) if vc is not None else POISON
             else:
                 metric = ess
             return self.tagged_weights(beta), ess, metric
@@ -203,11 +245,40 @@ class StubBinding:
         rw._compute_metric_and_weights = stub_metric
         try:
             w = rw.run()
+        except (OffGrid, PoisonUsed) as ex:  # the code searches differently from the specification: judged by judge() on the extended oracle
+            return {"raised": None, "path": repr(ex), "qlog": qlog}
         except Exception as ex:  # an exception is an outcome no specification behaviour has
             return {"raised": repr(ex), "qlog": qlog}
         cur = self.sm.get_current()
         return {"raised": None, "qlog": qlog, "zlog": list(self.zlog), "beta": cur["beta"], "ess": cur["ess"],
                 "logz": cur["logz"], "iter": cur["iter"], "weights": w}
+
+    def judge(self, st, F, obs):
+        """Property-level verdict on an observation made with the EXTENDED oracle, for code whose search path differs from the
+        specification's.  Only what C05 states: the temperature does not decrease and stays <= 1; once it advances the ESS there is
+        at least the target (ESS mode) / it is not beyond the ESS-limited temperature (volume mode); beta, evidence, ESS and the
+        returned weights refer to one temperature.  -> (key, message) | None"""
+        np = self.np
+        one = 2 ** F
+        classes, first_below = self.oracle(st, F, True)
+        if obs["raised"]:
+            return "raised", f"Reweighter.run raised {obs['raised']} after querying {obs['qlog']}"
+        b, bp = float(obs["beta"]), st["bp"] / one
+        if not (bp <= b <= 1.0):
+            return "monotone", f"beta written {b!r} with previous beta {bp!r}"
+        ec, _ = classes(b * one)
+        if b > bp and ec not in GE_CLASSES:
+            what = "ESS there is below the target" if st["mode"] == "ess" else "that is beyond the ESS-limited temperature"
+            return "advance-ess", f"advanced from {bp!r} to {b!r}: {what} (oracle class {ec}; first grid point below target {first_below})"
+        if not obs["zlog"] or obs["zlog"][-1] != b or not same_float(float(obs["logz"]), -7.0 * b - 1.0):
+            return "written-logz", f"logz written {obs['logz']!r} (evidence requested at {obs['zlog']}) is not the evidence at the recorded beta {b!r}"
+        if not same_float(float(obs["ess"]), float(class_value(ec, b * one, F, T_ESS))):
+            return "written-ess", f"ess written {obs['ess']!r} is not the ESS at the recorded beta {b!r}"
+        w = self.tagged_weights(b)
+        w = w / np.sum(w)
+        if getattr(obs["weights"], "shape", None) != w.shape or not np.allclose(obs["weights"], w, rtol=1e-12, atol=0):
+            return "weights-tag", f"returned weights {obs['weights']!r} are not the normalised weights of the recorded beta {b!r}"
+        return None
 
     def expected(self, st, F):
         one = 2 ** F
@@ -223,6 +294,8 @@ class StubBinding:
         """-> (key suffix, message) of the first discrepancy, or None."""
         if obs["raised"]:
             return "raised", f"Reweighter.run raised {obs['raised']} after querying {obs['qlog']}"
+        if obs.get("path"):
+            return "queries", f"search left the specification's path: {obs['path']}"
         if obs["qlog"] != exp["qlog"]:
             return "queries", f"temperatures evaluated {obs['qlog']} but the specification evaluates {exp['qlog']}"
         if obs["beta"] != exp["beta"]:
@@ -344,6 +417,27 @@ def stub_family(ck, np, Reweighter, StateManager, cov):
             exp = binding.expected(st, F)
             bad = binding.compare(obs, exp)
             cov["evaluations"] += len(obs["qlog"])
+            if bad and not obs["qlog"] and not obs["raised"]:
+                # the code never asked the stubbed metric: it is organised differently from the specification; this family cannot
+                # drive it (the real-history family and the recorded runs below do not depend on it)
+                cov["stub_binding_lost"] += 1
+                bad = None
+            elif bad and bad[0] != "raised":
+                # not the specification's behaviour.  C05 does not prescribe the search: second opinion at property level, on the
+                # monotone extension of the same oracle (any temperature has a meaning there).  Oracles that are not monotone give
+                # an alternative search no defined ESS-limited temperature: no verdict.
+                if monotone_memo(st["essM"]) and not any(c == "nan" for _, c in st["essM"]):
+                    obs2 = binding.observe(st, F, extended=True)
+                    if not obs2["qlog"] and not obs2["raised"]:
+                        cov["stub_binding_lost"] += 1
+                        bad = None
+                    else:
+                        bad2 = binding.judge(st, F, obs2)
+                        cov["stub_search_path_deviations_judged_at_property_level"] += 1
+                        bad = ("property:" + bad2[0], bad2[1] + f"  [exact replay differed: {bad[1][:200]}]") if bad2 else None
+                else:
+                    cov["stub_search_path_deviations_without_verdict"] += 1
+                    bad = None
             if bad:
                 ck.violation(f"stub:{st['mode']}:{bad[0]}", f"[{m['name']}] " + bad[1],
                              {"family": "stub", "F": F, "state": st})
